@@ -21,7 +21,19 @@ def _rule_matrix_diffusion(verdict, scn):
     return float(d.get("diffusion_strain") or 0.0) > 0.0
 
 
+def _rule_compact_support(verdict, scn):
+    """F error on a velocity-gradient field with compact support (pulse in time / shear band
+    in space) in an update in which the adaptive solver actually ran (>= 1 step): LSODA's
+    step-size control stepped over (part of) the support.  A change that skips the solver
+    (0 steps) is NOT matched."""
+    d = verdict.get("detail") or {}
+    if verdict["clause"] == "cumulative":
+        return bool(d.get("compact_support_in_history")) and int(d.get("solver_steps") or 0) >= 1
+    return d.get("family") in ("pulse", "band") and int(d.get("solver_steps") or 0) >= 1
+
+
 RULES = {
+    "compact_support_stepped_over": _rule_compact_support,
     "matrix_diffusion_strain": _rule_matrix_diffusion,
 }
 
